@@ -282,7 +282,13 @@ func (m *LeaseManager) Release(resourceID string) {
 		leaseKey := m.leaseKey(resourceID)
 		ctx, cancel := context.WithTimeout(context.Background(), 5*time.Second)
 		defer cancel()
-		if _, err := m.client.Delete(ctx, leaseKey); err != nil {
+		// Delete the key only while it still names this broker: after a session
+		// expiry another broker may have acquired the lease in the meantime, and
+		// an unconditional delete would remove its key.
+		if _, err := m.client.Txn(ctx).
+			If(clientv3.Compare(clientv3.Value(leaseKey), "=", m.brokerID)).
+			Then(clientv3.OpDelete(leaseKey)).
+			Commit(); err != nil {
 			m.logger.Warn(fmt.Sprintf("failed to delete %s lease key", m.resourceKind),
 				"key", leaseKey, "error", err)
 		}
